@@ -2,6 +2,7 @@ package main
 
 import (
 	"fmt"
+	"net/http"
 	"sort"
 	"strconv"
 	"strings"
@@ -165,6 +166,57 @@ func runC17(tier string, seed uint64) {
 			put(s)
 		}
 		list()
+		st.Close()
+	}
+	// ... and when the bucket name arrives as the first label of the Host header (host-bucket-base
+	// and host-bucket servers, memory backend): the same decision, on the name as it was sent
+	for _, mode := range []string{"hostbase", "host"} {
+		kind := "mem-" + mode
+		st := newStore("mem")
+		var h http.Handler
+		if mode == "hostbase" {
+			h = newServer(st.Backend, gofakes3.WithHostBucketBase("s3.example.com"))
+		} else {
+			h = newServer(st.Backend, gofakes3.WithHostBucket(true))
+		}
+		emit("c17", "reset", kind)
+		hostable := func(name string) bool {
+			if name == "" {
+				return false
+			}
+			for i := 0; i < len(name); i++ {
+				c := name[i]
+				if !(c >= 'a' && c <= 'z' || c >= 'A' && c <= 'Z' || c >= '0' && c <= '9' || c == '-' || c == '_') {
+					return false
+				}
+			}
+			return true
+		}
+		put := func(name string) {
+			if !hostable(name) {
+				return
+			}
+			r := do(h, Req{Method: "PUT", Path: "/", Host: name + ".s3.example.com"})
+			emit("c17", "put", kind, hs(name), strconv.Itoa(r.Status), hs(errCode(r.Body)), boolField(r.Panic != ""))
+			stat(fmt.Sprintf("put-%s-%d", kind, r.Status))
+		}
+		c17Enumerate(4, put)
+		for _, s := range special {
+			put(s)
+		}
+		for _, s := range []string{"AzA", "aaA", "A-9", "Abc", "abC", "a_b", "ABC", "abc", "abc"} {
+			put(s)
+		}
+		if mode == "hostbase" {
+			r := do(h, Req{Method: "GET", Path: "/", Host: "s3.example.com"})
+			names := xmlAll(string(r.Body), "Name")
+			sort.Strings(names)
+			var hexed []string
+			for _, nm := range names {
+				hexed = append(hexed, hs(nm))
+			}
+			emit("c17", "list", kind, strconv.Itoa(r.Status), strings.Join(hexed, ","))
+		}
 		st.Close()
 	}
 }
